@@ -795,3 +795,55 @@ T('pB4_twin_canonical_path_computed_again', ['C06', 'C07', 'C08'], (A, _PARTS, _
 B('pB4_canonical_form_of_the_raw_target', ['C07'], 'R07.a', (A, _PARTS, _again("request.environ.get('RAW_URI', url_path).partition('?')[0]", 'location_path')))
 B('pB4_canonical_form_of_the_quoted_path', ['C07'], 'R07.a', (A, _PARTS, _again('url_quote(url_path)', 'location_path')))
 B('pB4_canonical_form_of_the_lowercased_path', ['C07'], 'R07.a', (A, _PARTS, _again('url_path.lower()')))
+
+# ---------------------------------------------------------------------------------------------- optional fields of an error in the serialisers (R08.e)
+_EXC_TD = "        ret['exc_info'] = glom(self, T.exc_info.to_dict(), skip_exc=Exception)\n"
+T('pB4_twin_exc_info_guarded', ['C08'], (E, _EXC_TD, "        ret['exc_info'] = self.exc_info.to_dict() if self.exc_info is not None else None\n"))
+T('pB4_twin_exc_info_guard_statement', ['C08'],
+  (E, _EXC_TD, "        ret['exc_info'] = None\n        if self.exc_info:\n            ret['exc_info'] = self.exc_info.to_dict()\n"))
+T('pB4_twin_exc_info_attempt', ['C08'],
+  (E, _EXC_TD, "        try:\n            ret['exc_info'] = self.exc_info.to_dict()\n        except AttributeError:\n            ret['exc_info'] = None\n"))
+B('pB4_exc_info_dereferenced_blindly', ['C08'], 'R08.e', (E, _EXC_TD, "        ret['exc_info'] = self.exc_info.to_dict()\n"))
+B('pB4_exc_info_dereferenced_through_a_local', ['C08'], 'R08.e', (E, _EXC_TD, "        info = self.exc_info\n        ret['exc_info'] = info.to_dict()\n"))
+B('pB4_exc_info_guard_on_another_field', ['C08'], 'R08.e',
+  (E, _EXC_TD, "        ret['exc_info'] = self.exc_info.to_dict() if self.detail is not None else None\n"))
+B('pB4_source_route_pattern_in_every_error', ['C08'], 'R08.e',
+  (E, "               'error_type': self.error_type}\n        return ret\n", "               'error_type': self.error_type,\n               'route': self.source_route.pattern}\n        return ret\n"))
+
+# ---------------------------------------------------------------------------------------------- the last-resort renderer is self-contained (R08.a)
+_DRE = "    best_match = request.accept_mimetypes.best_match(MIME_SUPPORT_MAP)\n    _error.adapt(best_match)\n    return _error\n"
+_DRE_APP = ("    _application = kwargs.get('_application')\n    if _application is not None and _application.error_handler is not None:\n")
+T('pB4_twin_fallback_tries_the_handler_first', ['C08'],
+  (A, _DRE, _DRE_APP + "        try:\n            return _application.error_handler.render_error(request=request, _error=_error)\n"
+                       "        except Exception:\n            pass\n" + _DRE))
+T('pB4_twin_fallback_named_mimetype', ['C08'],
+  (A, _DRE, "    accepted = request.accept_mimetypes\n    mimetype = accepted.best_match(MIME_SUPPORT_MAP)\n    _error.adapt(mimetype)\n    return _error\n"))
+B('pB4_fallback_runs_the_applications_handler', ['C08'], 'R08.a',
+  (A, _DRE, _DRE_APP + "        return _application.error_handler.render_error(request=request, _error=_error)\n" + _DRE))
+B('pB4_fallback_instantiates_the_configured_handler_type', ['C08'], 'R08.a',
+  (A, _DRE, "    _application = kwargs.get('_application')\n    if _application is not None:\n        eh_type = _application.default_error_handler_type\n"
+            "        if eh_type is not ErrorHandler:\n            return eh_type().render_error(request=request, _error=_error)\n" + _DRE))
+B('pB4_fallback_asks_the_route_again', ['C08'], 'R08.a',
+  (A, _DRE, "    if getattr(_error, 'source_route', None) is not None and kwargs.get('retry'):\n"
+            "        return _error.source_route.execute_error(request=request, _error=_error, **kwargs)\n" + _DRE))
+B('pB4_fallback_calls_a_hook_from_the_keywords', ['C08'], 'R08.a',
+  (A, _DRE, "    hook = kwargs.get('_on_render_failure')\n    if hook is not None:\n        hook(request, _error)\n" + _DRE))
+
+# ---------------------------------------------------------------------------------------------- converting an uncaught exception of any type (R06.f / R08.a)
+_ISE = ("        if self.error_type is None:\n            try:\n                exc_type_name = self.exc_info.exc_type\n"
+        "                exc_type = getattr(exceptions, exc_type_name)\n                self.error_type = STDLIB_EXC_URL + exc_type.__name__\n"
+        "            except Exception:\n                pass\n")
+_ISE_IF = "        if self.error_type is None and self.exc_info is not None:\n"
+_RULES_F = {'C06': 'R06.f', 'C08': 'R08.a'}
+T('pB4_twin_exc_type_lookup_with_default', ['C06', 'C08'],
+  (E, _ISE, _ISE_IF + "            exc_type = getattr(exceptions, self.exc_info.exc_type, None)\n            if exc_type is not None:\n"
+                      "                self.error_type = STDLIB_EXC_URL + exc_type.__name__\n"))
+T('pB4_twin_exc_type_lookup_narrow_handler', ['C06', 'C08'], (E, _ISE, _ISE.replace('except Exception:', 'except AttributeError:')))
+B('pB4_exc_type_lookup_without_a_net', ['C06', 'C08'], _RULES_F,
+  (E, _ISE, _ISE_IF + "            exc_type = getattr(exceptions, self.exc_info.exc_type)\n            self.error_type = STDLIB_EXC_URL + exc_type.__name__\n"))
+B('pB4_exc_type_lookup_in_the_module_dict', ['C06', 'C08'], _RULES_F,
+  (E, _ISE, _ISE_IF + "            exc_type = vars(exceptions)[self.exc_info.exc_type]\n            self.error_type = STDLIB_EXC_URL + exc_type.__name__\n"))
+B('pB4_exc_type_lookup_in_the_handler_method', ['C06', 'C08'], _RULES_F,
+  (E, "        exc_info = eh.exc_info_type.from_current()\n        return eh.server_error_type(repr(exc_info),\n",
+      "        exc_info = eh.exc_info_type.from_current()\n        known = getattr(exceptions, exc_info.exc_type)\n"
+      "        return eh.server_error_type(known.__doc__ or repr(exc_info),\n"))
